@@ -1,5 +1,10 @@
+import contextlib
 import signal
 from . import ConductorAbort
+
+# See `defer_abort()`.
+_deferring_abort = False
+_abort_requested = False
 
 
 def register_signal_handlers():
@@ -8,4 +13,28 @@ def register_signal_handlers():
 
 
 def _terminate_handler(sig, frame):
+    global _abort_requested  # pylint: disable=global-statement
+    if _deferring_abort:
+        _abort_requested = True
+        return
     raise ConductorAbort()
+
+
+@contextlib.contextmanager
+def defer_abort():
+    """
+    Postpones the `ConductorAbort` raised on SIGINT/SIGTERM until the end of the
+    `with` block. This is meant for short sections that must not be abandoned
+    partway (e.g., launching a subprocess: if we are interrupted after the fork
+    but before `Popen()` returns, nobody would know about the new process and
+    it would be left running).
+    """
+    global _deferring_abort, _abort_requested  # pylint: disable=global-statement
+    _deferring_abort = True
+    try:
+        yield
+    finally:
+        _deferring_abort = False
+        if _abort_requested:
+            _abort_requested = False
+            raise ConductorAbort()
